@@ -21,6 +21,10 @@ THEOREMS = [
     "JanetModel.Spec.generic_bytecode_correct",
     "JanetModel.Props.C15.template_words_ok",
     "JanetModel.Props.C15.inline_eq_generic_bytecode_partial",
+    "JanetModel.Spec.shape_exec",
+    "JanetModel.Spec.fixed_inline_eq_generic_bytecode",
+    "JanetModel.Props.C15.fixed_rows_ok",
+    "JanetModel.Props.C15.fixed_inline_eq_generic",
     "JanetModel.Props.C15.nil_fast_paths_consistent",
     "JanetModel.Props.C15.nil_condition_value",
     "JanetModel.Props.C15.movopt_tables_sound_partial",
